@@ -389,7 +389,7 @@ def setField (k : FKind) (cur : FVal) : Src → R
 def Val.isZero : Val → Bool
   | .bool b => !b
   | .int _ n => n == 0
-  | .flt _ bits => bits == 0           -- reflect: `math.Float64bits(v.Float()) == 0` (so -0.0 is not zero)
+  | .flt _ bits => bits == 0 || bits == 9223372036854775808   -- reflect: `v.Float() == 0` (so -0.0 IS zero)
   | .str s => s.isEmpty
   | .bytes _ => false                  -- non-nil slice (nil slice is `none`)
   | .time s n => s == zeroTimeSec && n == 0
